@@ -40,6 +40,7 @@ pub enum Client {
     Verb(u8),           // 0 POST, 1 HEAD, 2 lowercase get
     SplitGet(usize),    // well-formed GET in k writes
     SplitAt(usize),     // well-formed GET in two writes, the second starting n bytes before the end
+    SplitHead(usize),   // well-formed GET in two writes, the first being its first n bytes only
     ResetBefore,        // RST before sending anything
     ResetAfterSend,     // full request, then RST without reading the reply
 }
@@ -59,8 +60,12 @@ pub enum Sock {
 
 const REQ: &[u8] = b"GET /metrics HTTP/1.1\r\nHost: localhost\r\nAccept: */*\r\n\r\n";
 
-pub const CLIENTS_REDUCED: [Client; 12] = [Client::SplitAt(1), Client::SplitAt(2), Client::SplitAt(3), Client::GoodGet, Client::CloseAfter(0), Client::CloseAfter(3), Client::CloseBeforeLast, Client::Oversize(2048), Client::Verb(0), Client::SplitGet(3), Client::ResetBefore, Client::ResetAfterSend];
-pub const CLIENTS_FULL: [Client; 22] = [
+pub const CLIENTS_REDUCED: [Client; 14] = [Client::SplitAt(1), Client::SplitAt(2), Client::SplitAt(3), Client::SplitHead(1), Client::SplitHead(2), Client::GoodGet, Client::CloseAfter(0), Client::CloseAfter(3), Client::CloseBeforeLast, Client::Oversize(2048), Client::Verb(0), Client::SplitGet(3), Client::ResetBefore, Client::ResetAfterSend];
+pub const CLIENTS_FULL: [Client; 26] = [
+    Client::SplitHead(1),
+    Client::SplitHead(2),
+    Client::SplitHead(3),
+    Client::SplitHead(7),
     Client::SplitAt(1),
     Client::SplitAt(2),
     Client::SplitAt(3),
@@ -138,6 +143,15 @@ fn do_client(exp: &Exporter, c: Client, expect_served: bool) -> Result<Option<u1
             let raw = read_response(&mut s, t0, Duration::from_secs(3))?;
             Ok(parse_http(&raw).filter(|r| r.complete).map(|r| r.status))
         }
+        Client::SplitHead(n) => {
+            let cut = n.min(REQ.len() - 1);
+            s.write_all(&REQ[..cut]).map_err(|e| e.to_string())?;
+            s.flush().ok();
+            std::thread::sleep(Duration::from_millis(4));
+            s.write_all(&REQ[cut..]).map_err(|e| e.to_string())?;
+            let raw = read_response(&mut s, t0, Duration::from_secs(3))?;
+            Ok(parse_http(&raw).filter(|r| r.complete).map(|r| r.status))
+        }
         Client::CloseAfter(n) => {
             let _ = s.write_all(&REQ[..n.min(REQ.len())]);
             drop(s);
@@ -186,7 +200,7 @@ fn do_client(exp: &Exporter, c: Client, expect_served: bool) -> Result<Option<u1
 }
 
 fn needs_observation(c: Client) -> bool {
-    matches!(c, Client::GoodGet | Client::SplitGet(_) | Client::SplitAt(_) | Client::ResetAfterSend)
+    matches!(c, Client::GoodGet | Client::SplitGet(_) | Client::SplitAt(_) | Client::SplitHead(_) | Client::ResetAfterSend)
 }
 
 pub struct Runner {
@@ -245,13 +259,13 @@ impl Runner {
                 }
             }
             match (c, r) {
-                (Client::GoodGet | Client::SplitGet(_) | Client::SplitAt(_), Ok(Some(st))) => {
+                (Client::GoodGet | Client::SplitGet(_) | Client::SplitAt(_) | Client::SplitHead(_), Ok(Some(st))) => {
                     let want_ok = *sk == Sock::Valid;
                     if (want_ok && st != 200) || (!want_ok && st != 500 && st != 200) {
                         verdict.get_or_insert((format!("well-formed request #{} answered with unexpected status", i), format!("status {} for {:?}/{:?} in {:?}", st, c, sk, seq)));
                     }
                 }
-                (Client::GoodGet | Client::SplitGet(_) | Client::SplitAt(_), other) => {
+                (Client::GoodGet | Client::SplitGet(_) | Client::SplitAt(_) | Client::SplitHead(_), other) => {
                     verdict.get_or_insert((format!("well-formed request inside the sequence not answered ({:?})", c), format!("{:?} for {:?}/{:?} in {:?}", other, c, sk, seq)));
                 }
                 _ => {}
@@ -401,7 +415,7 @@ pub fn run(ctx: &Ctx) -> i32 {
         Finish {
             ctx,
             level: "fault_enumeration",
-            rule: "the statime-metrics-exporter binary built from /repo is run as a subprocess; a case is a sequence of (client behaviour, observation-socket behaviour) pairs followed by a probe (well-formed GET with valid JSON behind it). Client behaviours: well-formed GET, close after 0/1/3/17 bytes, close one byte before the end of the header terminator, 2048/2049/4096 bytes without terminator then close, POST/HEAD/lowercase get, GET split over 2-5 writes and split inside the header terminator, TCP reset before sending, reset after sending without reading the reply. Socket behaviours: valid JSON, truncated JSON, wrong-shape JSON, not JSON, accept-and-close, socket absent, well-formed JSON with out-of-range enum payloads (ProfileSpecific(200) accuracy / time source). All sequences of length 1 and 2 are enumerated exhaustively (quick: reduced alphabet), lengths 3-4 sampled, plus for every disturbing client a run of 14 (thorough also 40) in a row. Oracle: the probe gets a complete 200 response with matching Content-Length within 5 s; well-formed requests inside the sequence get 200 (500 when the socket misbehaved); on a miss the process is inspected (exited / spinning by CPU time / hanging). Non-trivial = the sequence contains a behaviour other than a well-formed GET with valid JSON; distinct by sequence.",
+            rule: "the statime-metrics-exporter binary built from /repo is run as a subprocess; a case is a sequence of (client behaviour, observation-socket behaviour) pairs followed by a probe (well-formed GET with valid JSON behind it). Client behaviours: well-formed GET, close after 0/1/3/17 bytes, close one byte before the end of the header terminator, 2048/2049/4096 bytes without terminator then close, POST/HEAD/lowercase get, GET split over 2-5 writes, split inside the header terminator and after its first 1/2/3/7 bytes, TCP reset before sending, reset after sending without reading the reply. Socket behaviours: valid JSON, truncated JSON, wrong-shape JSON, not JSON, accept-and-close, socket absent, well-formed JSON with out-of-range enum payloads (ProfileSpecific(200) accuracy / time source). All sequences of length 1 and 2 are enumerated exhaustively (quick: reduced alphabet), lengths 3-4 sampled, plus for every disturbing client a run of 14 (thorough also 40) in a row. Oracle: the probe gets a complete 200 response with matching Content-Length within 5 s; well-formed requests inside the sequence get 200 (500 when the socket misbehaved); on a miss the process is inspected (exited / spinning by CPU time / hanging). Non-trivial = the sequence contains a behaviour other than a well-formed GET with valid JSON; distinct by sequence.",
             assumptions: vec!["only clients that go away are generated (a client that stays connected and silent is not)".into(), "loopback TCP and Unix sockets of the sandbox kernel".into()],
             min_nontrivial: 10,
         },
